@@ -193,6 +193,23 @@ def generate(run, num, depth, seed, cfg='Mdib_sim.cfg', module='MdibMC', pool=No
         raise MachineryError(f'expected about {pool} behaviours from TLC, got {len(behs)}')
     behs, stats = select_covering(behs, num, seed, k=fold, prefixes=prefixes)
     run.note('situation_coverage', stats)
+    if cfg == 'Mdib_sim.cfg':
+        behs = descriptor_purposes(run) + behs
+    return behs
+
+
+def descriptor_purposes(run):
+    """Test purposes: a shortest history for every situation of ONE descriptor transaction of up to four calls
+    (breadth-first TLC run, Mdib_dpurpose.cfg) - e.g. two children of one parent created / deleted and the parent
+    updated after them, which random simulation all but never produces."""
+    res = run_tlc('MdibMC', 'Mdib_dpurpose.cfg', workers=1, timeout=1800)
+    run.add_tlc(res)
+    behs = json_lines(res.stdout, 'BEH')
+    got = {lab for b in behs for lab in situation_labels(b)}
+    need = {'P:2:0:commit', 'P:0:2:commit', 'P:1:1:commit'}
+    if not need <= got:
+        raise MachineryError(f'descriptor transaction purposes not reached in Mdib.tla: {sorted(need - got)}')
+    run.note('descriptor_transaction_purposes', len(behs))
     return behs
 
 
